@@ -362,6 +362,13 @@ structure Prog where
   delete : Stmt
   cachedValue : Stmt
 
+/-- Constructor facts (`field=parameter` pairs of the composite literal the constructor returns): every field gets the
+parameter of its own name, and none of `fresh`'s fields — the two cache pointers, the mutex — is initialised, so a new object
+starts in the model's `fresh` state with an unlocked mutex. -/
+def ctorOk (required : List String) (ctor : List String) : Bool :=
+  ctor == required.map (fun f => f ++ "=" ++ f) &&
+  !(required.any fun f => f == "valueCached" || f == "hasCached" || f == "mutex")
+
 def noFn : V → Bool → FnRes V := fun _ _ => .fail
 
 /-- One operation of the translated code. -/
